@@ -6,7 +6,9 @@ Bounded-exhaustive enumeration, exhaustive in the VALUE dimension (executor: har
      255-channel stream to every 13th plus +-3 around 0, 1 and 2 frames), on encoder-made streams with
      1, 2, 3, 6 and 255 channels, a chain whose links have 2, 1 and 3 channels, and three "loud" streams (valid streams whose
      residue codebooks are declared 2^1, 2^17, 2^31 times larger, so that the decoded PCM is far outside +-1);
-     non-positive word sizes.
+     non-positive word sizes.  Every (format, length) case of the 1/2/3/6-channel streams is also run with half-rate
+     decoding switched on (ov_halfrate(vf,1) before the first read on both handles): bytes = conversion of the half-rate
+     float decode, whole frames, ov_pcm_tell advances by exactly 2 per frame returned.
  (b) value enumeration through the real packing loops: the filter callback of ov_read_filter overwrites the decoded
      block with float bit patterns; quick: a stratified boundary set (every exponent, every integer and half-step of
      both grids +-3 ulp, conversion-overflow boundaries) x 8 formats, plus every pattern with 2^-17 <= |x| < 4 for
@@ -77,6 +79,7 @@ def streams(tier):
     return S
 
 
+HALF = ['c17_m1', 'c17_s2', 'c17_t3', 'c17_x6']      # 1, 2, 3, 6 channels: every (format, length) case is also run at half rate
 TWIN = ['c17_m1', 'c17_s2', 'c17_t3', 'c17_x6', 'c17_y255', 'c17_chain', 'c17_loud1', 'c17_loud17', 'c17_loud31']
 
 
@@ -136,6 +139,9 @@ def make_cases(tier, S):
                 lens = sorted(set(l for l in lens if l % 13 == 0 or min(abs(l - b) for b in (0, frame, 2 * frame)) <= 3))
             for ln in lens + [4096, 65536]:
                 pre.append(('T', name, f, ln))
+                if name in HALF:
+                    # the same case with half-rate decoding on: bytes = conversion of the half-rate float decode, position advances 2 per frame
+                    pre.append(('T', name, f, ln, 1))
         for w in (0, -1, -2147483648):
             for ln in (0, 1, 2 * ch, 4096):
                 pre.append(('W', name, w, ln))
@@ -144,6 +150,9 @@ def make_cases(tier, S):
         for f in range(8):
             for part in range(nparts):
                 pre.append(('G', name, f, part, nparts))
+    for f in range(8):          # boundary set through the filter with half-rate decoding on (2-channel carrier)
+        for part in range(4):
+            pre.append(('G', 'c17_v2', f, part, 4, 1))
     if tier == 'thorough':
         # ALL 2^32 patterns per format; format order = priority, so that a run cut by the deadline still completes whole formats
         for f in [6, 0, 5, 4, 2, 7, 1, 3]:
@@ -164,11 +173,17 @@ def make_cases(tier, S):
     return pre, val
 
 
+def is_half(c):
+    return (c[0] == 'T' and len(c) > 4 and c[4] == 1) or (c[0] == 'G' and len(c) > 5 and c[5] == 1)
+
+
 def classify_failure(c, status, d):
     """-> list of (key, short description) for one failing case (excluding kind-1 runs, handled by the caller)"""
     kind = c[0]
     what = d.get('what', '-')
     tag = fmt_name(c[2]) if kind in 'TVG' else 'word%d' % c[2]
+    if is_half(c):
+        tag += ':halfrate'
     out = []
     if status not in ('ok', 'bad'):
         out.append((f'executor_{status}:{kind}:{c[1]}:{tag}', f'executor answered {status} {json.dumps(d)[:300]}'))
@@ -206,6 +221,14 @@ def evaluate(chk, cases, res, S, agg):
             if kind == 'T':
                 agg['tjudged'] += int(d['n'])
                 agg['tbig'] += int(d['big'])
+        if is_half(c) and status in ('ok', 'bad'):
+            if int(d.get('half', 0)) != 1:
+                agg['other'].append((f'executor_ignored_halfrate:{kind}:{c[1]}', (line or '')[:200], c))
+            if kind == 'T' and int(d.get('reads', 0)) > 0:
+                agg['half_reads'] += int(d['reads'])
+                agg['half_combos'].add((c[2], int(d['maxch'])))
+            if kind == 'G':
+                agg['half_filter_calls'] += int(d.get('calls', 0))
         if kind in 'TW':
             agg['rej' if kind == 'T' else 'wrej'] += int(d.get('rej', 0))
             agg['einval'] += int(d.get('einval', 0))
@@ -253,7 +276,7 @@ def run(tier):
     S = streams(tier)
     pre, val = make_cases(tier, S)
     agg = {'cls': [[0] * len(CLS) for _ in range(8)], 'vjudged': [0] * 8, 'vnan': [0] * 8, 'vslices': [0] * 8, 'vcover': [0] * 8, 'gjudged': 0, 'tjudged': 0, 'tbig': 0,
-           'rej': 0, 'wrej': 0, 'einval': 0, 'reads': 0, 'multi': 0, 'maxch': 0, 'chain_reads': 0, 'skipped': [],
+           'rej': 0, 'wrej': 0, 'einval': 0, 'reads': 0, 'multi': 0, 'maxch': 0, 'chain_reads': 0, 'half_reads': 0, 'half_combos': set(), 'half_filter_calls': 0, 'skipped': [],
            'k1': [{'n': 0, 'nenv': 0, 'contig': [], 'env': [], 'case': None} for _ in range(8)], 'k1twin': {}, 'other': []}
     budget = 150 if tier == 'quick' else 22 * 60
     deadline = int(t0 + budget)
@@ -317,7 +340,8 @@ def run(tier):
     chk.cov.update({
         'distinct_nontrivial': len(combos),
         'exhaustive': exhaustive,
-        'rule': 'cases: T = (stream, format, buffer length) twin read-through, all 8 formats x lengths 0..2 frames+1, 4096, 65536 x every position reached; '
+        'rule': 'cases: T = (stream, format, buffer length[, half-rate]) twin read-through, all 8 formats x lengths 0..2 frames+1, 4096, 65536 x every position reached, '
+                'the 1/2/3/6-channel streams additionally with ov_halfrate(vf,1) on both handles before the first read (ov_pcm_tell must advance 2 per frame); '
                 'W = non-positive word {0,-1,INT_MIN} x 4 lengths; G = slice of the stratified boundary float set through ov_read_filter on a 2- and a 3-channel stream; '
                 'V = contiguous block of float bit patterns through ov_read_filter (%s). '
                 'distinct_nontrivial = distinct (format, value class) pairs for which at least one sample was judged against the reference; '
@@ -331,6 +355,7 @@ def run(tier):
         'values_judged_filter_boundary_set': agg['gjudged'], 'samples_judged_twin': agg['tjudged'], 'twin_samples_beyond_int_range': agg['tbig'],
         'twin_reads': agg['reads'], 'small_buffer_refusals': agg['rej'], 'nonpositive_word_refusals': agg['wrej'], 'refusals_with_OV_EINVAL': agg['einval'],
         'multichannel_multiframe_reads': agg['multi'], 'max_channels_read': agg['maxch'], 'reads_over_channel_change': agg['chain_reads'],
+        'halfrate_twin_reads': agg['half_reads'], 'halfrate_format_x_channels_combos': len(agg['half_combos']), 'halfrate_filter_calls': agg['half_filter_calls'],
         'cases_skipped_by_deadline': len(agg['skipped']),
         'ftoi_overflow_ranges': lines,
     })
@@ -348,6 +373,8 @@ def run(tier):
     chk.guard(all(agg['cls'][f][2] > 0 for f in ok_fmts), 'each format saw exact ties')
     chk.guard(all(agg['cls'][f][5] > 0 and agg['cls'][f][6] > 0 and agg['cls'][f][7] > 0 and agg['cls'][f][8] > 0 and agg['cls'][f][9] > 0 for f in ok_fmts), 'each format saw +-inf, denormals, +0 and -0')
     chk.guard(agg['multi'] > 0 and agg['maxch'] == 255, 'multi-frame reads on >=3 channels were compared and the 255-channel stream was read')
+    chk.guard(len(agg['half_combos']) == 32 and agg['half_filter_calls'] > 0,
+              'half-rate decoding: all 8 formats x {1,2,3,6} channels were read with ov_halfrate on (position must advance 2 per frame), and the filter path ran at half rate')
     chk.guard(agg['chain_reads'] > 0, 'a read-through crossed a change of channel count')
     chk.guard(agg['rej'] > 0 and agg['wrej'] > 0, 'small-buffer and non-positive-word refusals were observed')
     chk.guard(agg['tbig'] > 0, 'the twin check met samples of a valid stream whose scaled value is beyond the int range')
